@@ -138,7 +138,8 @@ def gen_cmds(rng, edit_only=False, nmax=4, allow_glob=True):
             items.append(("cut", False, rng.choice(L.CUTS)))
         elif r < 0.45 and not edit_only:
             items.append(("ncut", False, rng.choice(["a", "key"]), rng.choice(L.CUTS)))
-        elif r < 0.55 and not edit_only:
+        elif r < 0.55 and (not edit_only or rng.random() < 0.4):
+            # (-n also in lists that cut nothing: it must not close a record that is not there)
             items.append(("next", False))
         elif r < 0.65 and allow_glob:
             th = [("move", False, rng.choice(L.EDITS))] if (edit_only or rng.random() < 0.5) else [("cut", False, rng.choice(L.CUTS))]
